@@ -4,18 +4,16 @@ import json, os, subprocess, sys
 
 HERE = os.path.dirname(os.path.dirname(os.path.abspath(__file__)))
 
-# id -> (engine, category, technique, text, note, design_ref)
-CHECKS = {
-    "C14": ("nprobe", "exploration",
-            "runtime monitoring: real CanonicalizePath under ASan/UBSan, bounded-exhaustive + random inputs, reference-normaliser oracle",
-            "Every string over {a,b,.,/} up to length 10 (quick) / 13 (thorough) and 0.2M / 5M random long "
-            "paths are pushed through the real function in exact-size heap buffers; each result is compared "
-            "with a ten-line reference normaliser and checked for idempotence, non-growth, kept root. "
-            "Exhaustive where the structure lives, sampled beyond; a sanitizer report is a violation.",
-            "Trusted: the reference normaliser (harness/probe_canon.cc RefCanon), ASan red zones. Empty "
-            "string excluded (callers reject it).",
-            "DESIGN.md §5 C14"),
-}
+sys.path.insert(0, HERE)
+import importlib  # noqa: E402
+
+CHECKS = {}
+for f in sorted(os.listdir(os.path.join(HERE, "vlib", "checks"))):
+    if f.startswith("c") and f.endswith(".py") and f[1:3].isdigit():
+        mod = importlib.import_module("vlib.checks." + f[:-3])
+        if hasattr(mod, "MANIFEST"):
+            d = mod.MANIFEST
+            CHECKS[f[:-3].upper()] = (d["engine"], d["category"], d["technique"], d["text"], d["note"], d["ref"])
 
 NOT_YET = "check not built yet at this commit (implementation in progress, see DESIGN.md §5)"
 
